@@ -19,6 +19,7 @@ import (
 	"github.com/platinummonkey/go-concurrency-limits/patterns/pool"
 	"github.com/platinummonkey/go-concurrency-limits/strategy"
 
+	"verifharness/internal/inject"
 	"verifharness/internal/rt"
 )
 
@@ -36,12 +37,15 @@ type cfg struct {
 	SmallWin bool          `json:"sample_window_of_10_completions"` // the limiter's sample window closes after 11 completions (any duration)
 	Collide  bool          `json:"timeouts_collide_with_releases"`
 	StratArg int           `json:"generic_pool_strategy_constructed_with"` // the number handed to the strategy's constructor (the limiter's limit governs)
-	Overflow int           `json:"callers_beyond_limit_plus_backlog"`     // all callers arrive at once, this many more than limit + backlog: they (and only they) may be turned away
+	Overflow int           `json:"callers_beyond_limit_plus_backlog"`      // all callers arrive at once, this many more than limit + backlog: they (and only they) may be turned away
 }
 
 var orderings = map[string]pool.Ordering{"random": pool.OrderingRandom, "fifo": pool.OrderingFIFO, "lifo": pool.OrderingLIFO}
 
-func build(c cfg) core.Limiter {
+func build(c cfg) core.Limiter { return buildWith(c, nil) }
+
+// buildWith builds the pool; wrap, if given, is put around the delegate of a generic pool (an instrumented delegate).
+func buildWith(c cfg, wrap func(core.Limiter) core.Limiter) core.Limiter {
 	if c.Pool == "fixed" {
 		ws, minW, maxW, thr := -1, time.Duration(-1), time.Duration(-1), time.Duration(-1)
 		if c.SmallWin {
@@ -70,7 +74,11 @@ func build(c cfg) core.Limiter {
 	if err != nil {
 		panic(err)
 	}
-	p, err := pool.NewPool(dl, orderings[c.Ordering], c.Backlog, c.Timeout, nil, nil)
+	var delegate core.Limiter = dl
+	if wrap != nil {
+		delegate = wrap(dl)
+	}
+	p, err := pool.NewPool(delegate, orderings[c.Ordering], c.Backlog, c.Timeout, nil, nil)
 	if err != nil {
 		panic(err)
 	}
@@ -423,6 +431,28 @@ func stressCase(idx int64, r *rand.Rand) {
 				rt.Violation("C19/"+name+"/queued-caller-refused", idx, rt.J{"config": c, "refused": refused.Load(), "mode": "stress"})
 				return
 			}
+			// every token has completed: the pool hands out its full limit again, at once (2 s is only ever waited for by a pool
+			// that lost a unit)
+			var again []core.Listener
+			lost := 0
+			for i := 0; i < c.Limit; i++ {
+				ctx, cancel := context.WithTimeout(context.Background(), 2*time.Second)
+				l, ok := p.Acquire(ctx)
+				cancel()
+				if !ok || l == nil {
+					lost = c.Limit - i
+					break
+				}
+				again = append(again, l)
+			}
+			for _, l := range again {
+				l.OnIgnore()
+			}
+			rt.Count("stress_full_limit_probes", 1)
+			if lost > 0 {
+				rt.Violation("C19/"+name+"/pool-lost-capacity-after-every-token-completed", idx, rt.J{"config": c, "units_not_admitted_again": lost, "grants": progress.Load(), "mode": "stress"})
+				return
+			}
 			rt.Distinct(fmt.Sprintf("s|%+v", c))
 			return
 		case <-time.After(3 * time.Second):
@@ -459,6 +489,10 @@ func releaseAtPoint(t *testing.T, idx int64, r *rand.Rand) {
 	points := []string{"queue.before_push", "queue.after_push"}
 	if c.Ordering == "random" {
 		points = []string{"blocking.helper_before_lock"}
+		if c.Pool == "generic" {
+			// seen from the (instrumented) delegate of a generic pool: right after the caller's first / second refused attempt
+			points = append(points, "after-refused-attempt-1", "after-refused-attempt-2")
+		}
 		c.Timeout = 0
 	}
 	point := points[r.IntN(len(points))]
@@ -467,8 +501,27 @@ func releaseAtPoint(t *testing.T, idx int64, r *rand.Rand) {
 	rt.Scenario(fmt.Sprintf("C19/%s-%s/release@%s", c.Pool, c.Ordering, point), idx, c)
 	defer rt.ScenarioDone()
 	bubble(t, func(t *testing.T) {
-		p := build(c)
+		var armed, fired atomic.Bool
 		var held []core.Listener
+		var callerGoID atomic.Int64
+		refused := 0
+		p := buildWith(c, func(in core.Limiter) core.Limiter {
+			g := inject.NewGate(in)
+			g.Hook = func(e inject.GateEvent) {
+				if e.OK || !armed.Load() || e.GoID != callerGoID.Load() || !strings.HasPrefix(point, "after-refused-attempt-") {
+					return
+				}
+				refused++
+				if fmt.Sprintf("after-refused-attempt-%d", refused) == point && fired.CompareAndSwap(false, true) {
+					var done atomic.Bool
+					go func() { held[0].OnSuccess(); done.Store(true) }()
+					for i := 0; i < yields && !done.Load(); i++ {
+						runtime.Gosched()
+					}
+				}
+			}
+			return g
+		})
 		for i := 0; i < c.Limit; i++ {
 			l, ok := p.Acquire(context.Background())
 			if !ok {
@@ -476,7 +529,6 @@ func releaseAtPoint(t *testing.T, idx int64, r *rand.Rand) {
 			}
 			held = append(held, l)
 		}
-		var armed, fired atomic.Bool
 		limiter.SetVerifHook(func(name string) {
 			if name == point && armed.Load() && fired.CompareAndSwap(false, true) {
 				var done atomic.Bool
@@ -491,7 +543,7 @@ func releaseAtPoint(t *testing.T, idx int64, r *rand.Rand) {
 		var l core.Listener
 		var ok bool
 		var done atomic.Bool
-		go func() { l, ok = p.Acquire(context.Background()); done.Store(true) }()
+		go func() { callerGoID.Store(inject.GoID()); l, ok = p.Acquire(context.Background()); done.Store(true) }()
 		synctest.Wait()
 		armed.Store(false)
 		if !fired.Load() { // point not on this path (it is, for every pool kind): release the plain way
